@@ -86,6 +86,30 @@ Theorem C26_stalled_round_fixpoint : forall r t,
 Proof. exact stalled_round_fixpoint. Qed.
 Print Assumptions C26_stalled_round_fixpoint.
 
+(* 6b. Converse: under the protocol (every actor was pending when the round started, which
+       [actors_okb] guarantees), a round that leaves the worklist unchanged made no progress:
+       nothing completed and every registration was already registered.  Hence
+       "the worklist is unchanged by a round  <->  every event of the round is stalled". *)
+Theorem C26_unchanged_round_stalled : forall t s r,
+  Rep t s -> round_okb s r = true ->
+  (forall e, In e r -> In (fst e) (pending s)) ->
+  run_round t r = Ok t ->
+  forall e, In e r -> stalled_event t e.
+Proof. exact unchanged_round_stalled. Qed.
+Print Assumptions C26_unchanged_round_stalled.
+
+Theorem C26_round_unchanged_iff_stalled : forall t s r,
+  Rep t s -> round_okb s r = true ->
+  (forall e, In e r -> In (fst e) (pending s)) ->
+  (run_round t r = Ok t <-> forall e, In e r -> stalled_event t e).
+Proof. exact round_unchanged_iff_stalled. Qed.
+Print Assumptions C26_round_unchanged_iff_stalled.
+
+Theorem C26_actors_ok_pending : forall s r, actors_okb s r = true ->
+  forall e, In e r -> In (fst e) (pending s).
+Proof. exact actors_ok_pending. Qed.
+Print Assumptions C26_actors_ok_pending.
+
 (* The protocol hypothesis is needed: outside it the model (like the crate, debug build)
    reaches the underflow panic.  insert_dep(1,2); remove(1); insert_dep(3,1); remove(2). *)
 Lemma C26_underflow_reachable_outside_protocol :
